@@ -18,7 +18,7 @@ scripts' partial order).
 import hashlib
 import json
 
-from vf.report import HarnessError, dumps
+from vf.report import HarnessError, Livelock, dumps
 
 
 class Action:
@@ -90,7 +90,13 @@ def execute(factory, params, prefix, want_labels=False):
     sc = factory(params)
     ex = Execution()
     try:
-        sc.build()
+        try:
+            sc.build()
+        except Livelock as e:
+            sc.flag('livelock', str(e), trigger='setup')
+            ex.violations = list(sc.violations)
+            ex.end = 'livelock'
+            return ex
         w = sc.world
         scripts = sc.scripts
         sc.pos = [0] * len(scripts)
@@ -145,23 +151,31 @@ def execute(factory, params, prefix, want_labels=False):
                     ex.labels.append('env:' + scripts[pick[1]][sc.pos[pick[1]]].name)
                 else:
                     ex.labels.append('%s:%s' % (pick[0], pick[1]))
-            if pick[0] == 'run':
-                w.step(pick[1])
-                last_actor = pick[1]
-            elif pick[0] == 'env':
-                i = pick[1]
-                act = scripts[i][sc.pos[i]]
-                sc.pos[i] += 1
-                act.fire(sc)
-            else:
-                w.advance_to(pick[1])
+            try:
+                if pick[0] == 'run':
+                    w.step(pick[1])
+                    last_actor = pick[1]
+                elif pick[0] == 'env':
+                    i = pick[1]
+                    act = scripts[i][sc.pos[i]]
+                    sc.pos[i] += 1
+                    act.fire(sc)
+                else:
+                    w.advance_to(pick[1])
+            except Livelock as e:
+                sc.flag('livelock', str(e), trigger='step')
+                ex.end = 'livelock'
+                break
             sc.step_check()
             n += 1
             if n > sc.max_points:
                 ex.end = 'cap'
-                sc.flag('harness_cap', 'execution exceeded %d decision points' % sc.max_points)
+                sc.flag('livelock', 'execution exceeded %d decision points without reaching the horizon' % sc.max_points, trigger='cap')
                 break
-        sc.finish()
+        try:
+            sc.finish()
+        except Livelock as e:
+            sc.flag('livelock', str(e), trigger='epilogue')
         ex.violations = list(sc.violations)
         ex.obs = sc.observation()
         ex.extra = getattr(sc, 'extra', None)
@@ -217,8 +231,12 @@ def explore_subtree(factory, params, prefix, bound, on_exec, stats, budget=None)
     most `bound` deviations in total. on_exec(ex, prefix) is called for each
     execution. Returns False when the execution budget ran out."""
     stack = [prefix]
+    nviol = 0
     while stack:
         p = stack.pop()
+        if nviol >= 25:
+            stats.caps += 1
+            return False
         if budget is not None and stats.executions >= budget:
             stats.caps += 1
             return False
@@ -231,6 +249,8 @@ def explore_subtree(factory, params, prefix, bound, on_exec, stats, budget=None)
         if ex.obs is not None:
             stats.outcomes.add(obs_digest(ex.obs))
         on_exec(ex, p)
+        if ex.violations:
+            nviol += 1
         stack.extend(alternatives(ex, len(p), bound))
     return True
 
@@ -250,6 +270,10 @@ def _subtree_worker(chunk):
     samples = []
 
     for params, prefix in chunk:
+        if len(viols) >= 25:
+            st.caps += 1          # plenty of counterexamples already: do not grind through a broken tree
+            continue
+
         def on_exec(ex, p, params=params):
             if len(samples) < 2 and len(ex.choices) > 3:
                 samples.append({'params': params, 'choices': ''.join(map(str, ex.choices))})
@@ -274,7 +298,13 @@ def run_search(factory, params_list, bound, workers=16, seed=0, budget_per_subtr
     items = []
     samples = []
     gate = {'replayed': 0, 'mismatches': 0}
-    for params in params_list:
+    per_scenario = len(params_list) >= 4 * workers
+    if per_scenario:
+        for params in params_list[:2]:
+            ex = execute(factory, params, [], want_labels=True)
+            samples.append({'params': params, 'default_schedule': ex.labels[:60]})
+        items = [(params, []) for params in params_list]
+    for params in ([] if per_scenario else params_list):
         ex = execute(factory, params, [], want_labels=len(samples) < 3)
         st.executions += 1
         st.points += len(ex.choices)
